@@ -182,9 +182,15 @@ impl Agreed {
         ctx.prng.fill(&mut b);
         let cid: ChannelId = wire::de(&b).expect("channel id");
         let pick = |ctx: &mut Ctx| -> u64 {
-            match ctx.prng.gen_range(0..6) { 0 => 0, 1 => i64::MAX as u64, 2 => 1, _ => ctx.prng.gen::<u64>() >> ctx.prng.gen_range(1..64) }
+            match ctx.prng.gen_range(0..7) {
+                0 => 0, 1 => i64::MAX as u64, 2 => 1,
+                // base-128 digit patterns of the range proof: a power of 128 (digits 1,0,..,0) and its neighbours
+                3 => { let k = ctx.prng.gen_range(1..9u32); let p = 1u64 << (7 * k); match ctx.prng.gen_range(0..4) { 0 => p, 1 => p - 1, 2 => p + ctx.prng.gen_range(1..128u64), _ => p + (ctx.prng.gen::<u64>() % (p >> 7).max(1)) } }
+                _ => ctx.prng.gen::<u64>() >> ctx.prng.gen_range(1..64),
+            }
         };
-        let n = match ctx.prng.gen_range(0..5) { 0 => 32, 1 => 64, _ => ctx.prng.gen_range(0..40) };
+        // context lengths: short, around the SHA3-256 rate and around buffer sizes a streaming hasher might use
+        let n = match ctx.prng.gen_range(0..8) { 0 => 32, 1 => 64, 2 => [135usize, 136, 137, 1000, 4095, 4096, 4097, 8191, 8192, 8193, 10000, 16384, 16385, 65537][ctx.prng.gen_range(0..14)], _ => ctx.prng.gen_range(0..40) };
         let ctx_bytes: Vec<u8> = (0..n).map(|_| ctx.prng.gen()).collect();
         let cid_s = cid_scalar(&b);
         // the real conversion must be the 256-bit little-endian integer reduced mod q (independent evaluation)
@@ -194,6 +200,12 @@ impl Agreed {
             ctx.disagreements.push(json!({"kind": "model-vs-implementation", "case": ctx.case_id, "what": "ChannelId::to_scalar is not the 256-bit little-endian integer of the id reduced mod q", "channel_id": hex::encode(b)}));
         }
         Agreed { cid, cid_s, cb: pick(ctx), mb: pick(ctx), ctx_bytes }
+    }
+    /// the same agreed values under a long context (lengths around the buffer sizes a streaming hasher might use)
+    pub fn with_long_context(mut self, ctx: &mut Ctx) -> Agreed {
+        let n = [4096usize, 8191, 8192, 8193, 10000, 16384, 16385, 65537][ctx.prng.gen_range(0..8)];
+        self.ctx_bytes = (0..n).map(|_| ctx.prng.gen()).collect();
+        self
     }
     /// the same agreed values under another channel id (given as bytes)
     pub fn with_cid(&self, b: &[u8; 32]) -> Agreed {
